@@ -497,7 +497,7 @@ def ring_check(pid, tier):
         v.cov["states"] += meta["distinct"]
         v.cov["transitions"] += meta["generated"]
         scheds = [json.loads(l) for l in open(path)]
-        res = core.merge(core.run_sharded(["ringreplay", "-stepms", "2500"], scheds, timeout=1200))
+        res = core.merge(core.run_sharded(["ringreplay", "-stepms", "2500", "-own", pid], scheds, timeout=1200))
         mine = [m for m in res.get("mismatches", []) if m.get("tag") == pid]
         foreign += len([m for m in res.get("mismatches", []) if m.get("tag") != pid])
         v.mismatches(mine)
